@@ -11,7 +11,9 @@ use crate::tape::Tape;
 use serde_json::{json, Value};
 
 /// names the macro refers to (or plausibly could): each defined as a local item of some kind
-const SHADOWS: [(&str, &str); 28] = [
+const SHADOWS: [(&str, &str); 29] = [
+    // a type named like a const parameter of an entraited fn: generic argument lists read a bare `N` as a type
+    ("N", "pub struct N;"),
     // lower-case items: a parameter *name* of a trait method declaration is a pattern once the method has a body
     ("ident", "pub const ident: u64 = 0;"),
     ("key", "pub struct key;"),
@@ -126,6 +128,11 @@ fn units() -> Vec<(&'static str, &'static str, &'static str)> {
             "trait_assoc_type_named_like_a_supertraits",
             "#[::entrait::entrait]\npub trait @T@: ::core::ops::Deref { type Target; fn cfg_get(&self) -> u64; }\nimpl ::core::ops::Deref for App { type Target = u64; fn deref(&self) -> &u64 { &7 } }\nimpl @T@ for App { type Target = u8; fn cfg_get(&self) -> u64 { 9 } }\n",
             "{ let app = ::entrait::Impl::new(App); let _: ::core::option::Option<<::entrait::Impl<App> as @T@>::Target> = ::core::option::Option::Some(1u8); <::entrait::Impl<App> as @T@>::cfg_get(&app) }",
+        ),
+        (
+            "fn_const_generic",
+            "#[::entrait::entrait(pub @T@)]\npub fn cgen<const N: usize>(_deps: &impl ::core::any::Any, x: [u64; N]) -> u64 { x[0] + N as u64 }\n",
+            "{ let app = ::entrait::Impl::new(App); <::entrait::Impl<App> as @T@<2>>::cgen(&app, [5u64; 2]) }",
         ),
         // the delegation-target trait is called `T` - a name the generated selector trait must not use for a parameter of its own
         (
